@@ -137,7 +137,9 @@ impl LocalEntityAccessControl for AccessControlBuiltin {
     topic_name: String,
     _qos: &QosPolicies,
   ) -> SecurityResult<bool> {
-    let partitions = &[]; // Partitions currently unsupported. TODO: get from PartitionQosPolicy
+    // Partitions currently unsupported: everything is in the default (empty string)
+    // partition. TODO: get from PartitionQosPolicy
+    let partitions = &[""];
     let data_tags = &[]; // Data tagging currently unsupported. TODO: get from DataTagQosPolicy
     self.check_entity(
       permissions_handle,
@@ -156,7 +158,9 @@ impl LocalEntityAccessControl for AccessControlBuiltin {
     topic_name: String,
     _qos: &QosPolicies,
   ) -> SecurityResult<bool> {
-    let partitions = &[]; // Partitions currently unsupported. TODO: get from PartitionQosPolicy
+    // Partitions currently unsupported: everything is in the default (empty string)
+    // partition. TODO: get from PartitionQosPolicy
+    let partitions = &[""];
     let data_tags = &[]; // Data tagging currently unsupported. TODO: get from DataTagQosPolicy
     self.check_entity(
       permissions_handle,
@@ -175,7 +179,9 @@ impl LocalEntityAccessControl for AccessControlBuiltin {
     topic_name: String,
     _qos: &QosPolicies,
   ) -> SecurityResult<bool> {
-    let partitions = &[]; // Partitions currently unsupported. TODO: get from PartitionQosPolicy
+    // Partitions currently unsupported: everything is in the default (empty string)
+    // partition. TODO: get from PartitionQosPolicy
+    let partitions = &[""];
     let data_tags = &[]; // Data tagging currently unsupported. TODO: get from DataTagQosPolicy
     self.check_entity(
       permissions_handle,
